@@ -170,7 +170,7 @@ fn raw_corpus_sentence(max_len: usize) -> impl Strategy<Value = RawCorpusSentenc
         })
 }
 
-const TRAIN_TAGS: &[&str] = &["名詞", "動詞", "N", "V", "助詞", "X-y"];
+const TRAIN_TAGS: &[&str] = &["名詞", "動詞", "N", "V", "助詞", "X-y", "ア", "イ", "ウ", "t7", "t8", "t9", "t10"];
 
 fn resolve_corpus_sentence(raw: &RawCorpusSentence, palette: &[char], n_tags: usize) -> RefSentence {
     let chars: Vec<char> = raw.text.iter().map(|&i| palette[pick(i, palette.len())]).collect();
@@ -197,7 +197,10 @@ fn resolve_corpus_sentence(raw: &RawCorpusSentence, palette: &[char], n_tags: us
                     raw.tags[i][j].map(|t| {
                         // the tag depends mostly on the character so that tokens repeat their tags,
                         // with some ambiguity
-                        let k = (chars[i] as usize + j * 3 + (t as usize & 1)) % TRAIN_TAGS.len();
+                        // mostly two alternatives per (character, category); sometimes up to
+                        // six, so that a token can have more than 8 trainable classes in total
+                        let spread = if t & 0x300 == 0x300 { (t as usize >> 4) % 6 } else { t as usize & 1 };
+                        let k = (chars[i] as usize + j * 3 + spread) % TRAIN_TAGS.len();
                         TRAIN_TAGS[k].to_string()
                     })
                 })
